@@ -65,6 +65,8 @@ type Gen struct {
 	named     map[Sort][]namedTerm
 	namedSeen map[string]bool
 	verWM     map[string]string // heap version -> allocation watermark when it was created
+	initDone   map[string]bool
+	specInit   int
 	UsedLemmas map[string]bool
 	slicer     *slicer
 	reveals   map[string]bool   // opaque spec functions whose definition is visible in this unit
@@ -300,6 +302,8 @@ func (g *Gen) immState() *State {
 	if g.imm == nil {
 		g.stateCtr++
 		g.imm = &State{id: g.stateCtr, heaps: map[string]string{}, epoch: 0}
+		// objects allocated by package initializers live above every global's fixed address
+		g.addAxiom(wmInv(g.heapGet(g.imm, allocHeap, allocSort)))
 	}
 	return g.imm
 }
